@@ -20,6 +20,8 @@ Fails(r) ==
                      \cup Unless(\A k \in DOMAIN r.calls : r.calls[k][4] = r.workers, "C20.workers")
                      \cup Unless(Len(r.tables) = r.n /\ \A a \in DOMAIN r.tables : r.tables[a] = <<r.nt, r.m>>, "C20.shape")
                      \cup Unless(r.columns_ok, "C20.columns")
+                     \cup Unless(TablesRight(r.n, r.m, r.nt, r.cells), "C20.cells")
+                     \cup Unless(r.export # "" \/ TablesRight(r.n, r.m, r.nt, r.content), "C20.content")
                      \cup Unless(r.export = "" /\ Len(r.files) = r.n /\ \A a \in DOMAIN r.files : r.files[a] = 1 /\ r.stray = 0, "C20.export")))
 Init == i = 1 /\ bad = {}
 Step == i <= Len(Recs) /\ bad' = bad \cup {<<Recs[i].id, cl>> : cl \in Fails(Recs[i])} /\ i' = i + 1
